@@ -338,6 +338,7 @@ def check(report: Report, repo: Repo) -> None:
     rp = it.class_attr(lr_cls, "reset_parameters")
     report.add("R5-init", f"{MD}::LinearReadout.reset_parameters", isinstance(rp, FuncV) and rp.cls is not None and rp.cls.qualname == "Linear", "readout layers use Linear's unit-variance initialisation", fmt(rp), "Linear.reset_parameters", nontrivial=False)
 
+    check_option_value_domains(report, repo)
     check_depth_containers(report, repo, "R6-depth")
 
     # ---------------------------------------------------------------- composite modules
@@ -366,6 +367,16 @@ def check(report: Report, repo: Repo) -> None:
     try:
         it.call_function(it.class_attr(cls, "__init__"), [selfv], dict(vals))
         selfv.attrs["linear_qkv"], selfv.attrs["linear_o"] = O("self.linear_qkv"), O("self.linear_o")
+        # evaluation mode: F.scaled_dot_product_attention has no `training` flag, it drops whenever dropout_p > 0;
+        # a module in eval() must therefore hand it 0 (as torch.nn.MultiheadAttention / nn.Dropout do)
+        selfv.attrs["training"] = False
+        it.events = []
+        it.call_function(it.class_attr(cls, "forward"), [selfv, P("input", None)], {})
+        ecalls = [e for e in it.events if e.kind == "call" and e["callee"] == FNM + "scaled_dot_product_attention"]
+        if len(ecalls) == 1:
+            pv = ecalls[0]["bound"].get("dropout_p")
+            report.add("R2-options", f"{MD}::MHSA::dropout_p[eval]", TM.expr_equal(pv, 0) is True if isinstance(pv, (int, float, sp.Basic)) else False, "in eval() mode MHSA is deterministic: the attention call receives dropout_p == 0", fmt(pv), "0")
+        selfv.attrs["training"] = True
         it.events = []
         it.call_function(it.class_attr(cls, "forward"), [selfv, P("input", None)], {})
         calls = [e for e in it.events if e.kind == "call" and e["callee"] == FNM + "scaled_dot_product_attention"]
@@ -394,6 +405,43 @@ def check(report: Report, repo: Repo) -> None:
             report.add("R2-options", f"{MD}::TransformerLayer.__init__::{k}", TM.term_of(selfv.attrs.get(k)) == TM.term_of(vals[k]), f"'{k}' is stored for forward (its use is checked under C07)", fmt(selfv.attrs.get(k)), fmt(vals[k]), nontrivial=False)
     except Unsupported as ex:
         report.add("R2-options", f"{MD}::TransformerLayer.__init__", None, f"outside fragment: {ex}")
+
+
+def check_option_value_domains(report: Report, repo: Repo) -> None:
+    """Options whose torch counterpart has a finite value domain: every value of the domain is either rejected
+    by the constructor or works in forward (an option accepted at construction and refused -- or asserted
+    away -- only when the module is called is neither honoured nor rejected at construction)."""
+    from ..nnmodel import container_super_hook  # noqa: F401  (same abstract nn.Module conventions)
+
+    DOMAINS = {"CrossEntropyLoss": ("reduction", ("none", "mean", "sum"))}
+    for cname, (opt, values) in DOMAINS.items():
+        for val in values:
+            it = Interp(repo)
+            cls = it.get_global(MD, cname)
+            init = it.class_attr(cls, "__init__") if cls is not None else None
+            fwd = it.class_attr(cls, "forward") if cls is not None else None
+            cons = f"{MD}::{cname}::{opt}[{val!r}]"
+            if not isinstance(init, FuncV) or not isinstance(fwd, FuncV):
+                raise AnalysisError(f"anchor vanished: {MD}::{cname}")
+            selfv = Obj(cname, cls=cls, term=T("param", ("self",)))
+            it.events = []
+            try:
+                made = it.call_function(init, [selfv], {opt: val})
+                ctor_raises = [e["exc"] for e in it.events if e.kind == "raise"]
+                if made is BOTTOM or ctor_raises:
+                    report.add("R2-options", cons, True, f"{cname}({opt}={val!r}) is rejected at construction", ctor_raises, "rejected", nontrivial=False)
+                    continue
+                selfv.attrs.setdefault(opt, val)  # (torch's constructor stores the option under its own name)
+                selfv.attrs.setdefault("ignore_index", -100)
+                selfv.attrs.setdefault("training", True)
+                it.events = []
+                B, V = dim("B"), dim("V")
+                res = it.call_function(fwd, [selfv, P("input", (B, V)), P("target", (B,))], {})
+            except Unsupported as ex:
+                report.add("R2-options", cons, None, f"outside fragment: {ex}")
+                continue
+            fraises = [e["exc"] for e in it.events if e.kind == "raise"]
+            report.add("R2-options", cons, not (res is BOTTOM or fraises), f"{cname}({opt}={val!r}) is accepted by the constructor, so forward must work (an option is honoured, or rejected at construction -- not refused or asserted away at call time)", fraises or "works", "works")
 
 
 def check_depth_containers(report: Report, repo: Repo, rule: str) -> None:
